@@ -6,6 +6,7 @@ CONSTANTS
   AliasInput = FALSE
   LeakyObserver = FALSE
   AliasResult = FALSE
+  AliasArg = FALSE
 INVARIANT Independent
 INVARIANT Deterministic
 INVARIANT FreshDefaults
